@@ -1,7 +1,7 @@
 """C04 — recursive one-way sync delivers exactly its plan (DESIGN §7 C04)."""
 from rules.common import *  # noqa: F401,F403
 from rules.oneway import Effects, RUN_REC, RUN_LOCAL, RUN_REMOTE
-from rules import C15
+from rules import C15, C14
 from callgraph import callgraph_of
 from terms import term_of, strip_payload
 from flow import ENUMS
@@ -28,6 +28,7 @@ REMOVERS = ('std::fs::remove_file', 'tokio::fs::remove_file')
 def run(ctx):
     F = ctx.F['cli']
     ctx.rule('C04.R1', 'plan -> effect: deliveries from plan.transfer with paths and mtime of the same entry; deletes from plan.delete', floor=6)
+    ctx.rule('C04.R9', 'the mtime a delivery stamps on the destination is the source metadata mtime of the same plan entry (pure copy chain; = C14.R2)', floor=3)
     ctx.rule('C04.R2', 'effects land under the destination root only; direction guards in run_remote', floor=6)
     ctx.rule('C04.R4', 'failure accounting: record_ok / record_err on both arms; report() Err iff failed() > 0; run returns report()', floor=5)
     ctx.rule('C04.R5', 'no result of a mutating step is discarded', floor=5)
@@ -37,6 +38,7 @@ def run(ctx):
     eff = Effects(F)
     ctx.attempt(r1, ctx, F)
     ctx.attempt(C15.delete_sources, ctx, F, 'C04.R1')
+    ctx.attempt(C14.r2, ctx, F, 'C04.R9')
     ctx.attempt(r2, ctx, F, eff)
     ctx.attempt(r4, ctx, F)
     ctx.attempt(r5, ctx, F, eff)
